@@ -294,6 +294,8 @@ class GatewayScenario(Scenario):
         self.static = {}
         self.bad, self.good_flags, self.observed = [], [], []
         self.nworkers = nworkers
+        for g in ("os_exit", "sigint", "sigint_pending", "clock", "eof", "serving", "overlap", "seq", "active"):
+            self.model.var(f"G.{g}", INT0)     # ghost variables the queries refer to exist whatever the code under test calls
         self.comp.interruptible_thread = "main"
         for k in range(nworkers):
             self.thread(f"worker{k}", "def p(pool, reply):\n    pool._perform_spawn(reply)\n", dynamic=True, method="_perform_spawn")
